@@ -214,6 +214,32 @@ pub fn spaces(tier: Tier) -> Vec<Space<'static>> {
                 }
                 judge(p, ip, d, b, acc);
             }
+            // selectors KEPT across documents (one per mode), each document placed at the same
+            // address: every answer must equal the answer of a fresh selector on that document
+            let kept: Vec<Selector> = [Mode::All, Mode::First, Mode::Array, Mode::Mixed].into_iter().map(|m| Selector::new(ip.clone(), m)).collect();
+            for (d, b) in docs.iter().take(8).chain(docs.iter().rev().take(4)) {
+                let fixed = crate::checks::c08::at_fixed_address(b);
+                for (k, m) in [Mode::All, Mode::First, Mode::Array, Mode::Mixed].into_iter().enumerate() {
+                    acc.eval();
+                    let (mut data, mut offs) = (vec![], vec![]);
+                    let r = guard(|| kept[k].select(fixed, &mut data, &mut offs));
+                    let fresh = select(ip, m, b);
+                    match (r, fresh) {
+                        (Ok(r), Ok(f)) => {
+                            if r.is_ok() != f.res.is_ok() || (r.is_ok() && (data != f.data || offs != f.offsets)) {
+                                acc.vio("kept-selector:answer-differs-from-a-fresh-selector", || json!({"path": print_path(p), "doc": format!("{:?}", d), "mode": k, "kept_data": hex(&data), "fresh_data": hex(&f.data)}));
+                            }
+                        }
+                        _ => acc.vio("kept-selector:panic", || json!({"path": print_path(p), "doc": format!("{:?}", d), "mode": k})),
+                    }
+                }
+                acc.eval();
+                let e1 = guard(|| kept[3].exists(fixed));
+                let e2 = guard(|| Selector::new(ip.clone(), Mode::Mixed).exists(b));
+                if format!("{:?}", e1.as_ref().map_err(|p| panic_class(p))) != format!("{:?}", e2.as_ref().map_err(|p| panic_class(p))) {
+                    acc.vio("kept-selector:exists-differs-from-a-fresh-selector", || json!({"path": print_path(p), "doc": format!("{:?}", d)}));
+                }
+            }
         }));
     }
     sp
